@@ -29,7 +29,7 @@ func (c01) Meta() fw.Meta {
 			"raw slot state is read through the live handle (GetAllRawUnsortedPoints) and cross-checked against the harness' own parse of the file bytes at every sync/reopen",
 			"layouts: 1-4 archives, steps 1..3600*60, rings of 1..1500 slots (thorough: a few files > 4 MiB)",
 		},
-		Obligations: []string{"stale_lap_nan_reads", "ring_end_crossing_reads", "page_straddle_slot_reads", "whole_ring_reads", "ring1", "ring2", "negative_distance_reads", "reopen_then_read", "jump_longer_than_retention", "nan_payload_roundtrip"},
+		Obligations: []string{"stale_lap_nan_reads", "ring_end_crossing_reads", "page_straddle_slot_reads", "whole_ring_reads", "ring1", "ring2", "negative_distance_reads", "reopen_then_read", "jump_longer_than_retention", "nan_payload_roundtrip", "distance_beyond_31_bits_reads"},
 	}
 }
 
@@ -118,6 +118,12 @@ func (c01) Run(c *fw.Ctx) {
 		}
 	}
 	now := genClock(r, l)
+	farJump := c.Index%13 == 5 && !big
+	if farJump {
+		// directed: first writes at an early clock, then a jump of more than 2^31 seconds, so that the
+		// distance between the ring's base interval and the addressed interval exceeds 31 bits
+		now = l.MaxRet() + 2*l.MaxStep() + int64(r.Intn(100000))
+	}
 	s, err := newSession(c, l, now, "c01.wsp")
 	if err != nil {
 		c.Violationf("create-failed", fw.J{"layout": l, "err": err.Error()}, "Create failed for a valid layout %s: %v", l, err)
@@ -134,6 +140,12 @@ func (c01) Run(c *fw.Ctx) {
 	afterReopen := false
 	for step := 0; step < nops && !c.Violated(); step++ {
 		op := genOp(r, l, s.now, histOpts{hostileValues: true})
+		if farJump && step == 3 {
+			d := int64(1)<<31 + int64(r.Intn(1<<20))
+			if s.now+d+2*l.MaxStep()+1 < int64(1)<<32 {
+				op = Op{Kind: "advance", Delta: d, Now: s.now + d}
+			}
+		}
 		if step == 0 && op.Kind != "batch" && op.Kind != "single" {
 			op = Op{Kind: "single", Arch: -1, Pt: model.PtBits{T: uint32(s.now), Bits: genValueBits(r, true)}, Now: s.now}
 		}
@@ -321,6 +333,9 @@ func (c01) Run(c *fw.Ctx) {
 				if ring[0].T != 0 {
 					if iv < int64(ring[0].T) {
 						c.Count("negative_distance_reads", 1)
+					}
+					if iv-int64(ring[0].T) >= 1<<31 {
+						c.Count("distance_beyond_31_bits_reads", 1)
 					}
 					if prevIdx >= 0 && idx < prevIdx {
 						c.Count("ring_end_crossing_reads", 1)
